@@ -375,11 +375,24 @@ def run(seed, tier, replay=None):
     drv = C.Driver()
     if replay is not None:
         v = replay.get("violation", replay)
-        cases = [v["input"]["case"]]
-        pol = v["input"].get("policy")
-        tasks = [dict(case=cases[0], mode=v["input"].get("mode", "stub"), policy=pol, n_theta=2, seed=0,
-                      gen_seed=v["input"].get("gen_seed", 0))]
-        variants, real_groups, mal = [], [], []
+        vin = v.get("input", {})
+        cases, tasks, variants, real_groups, mal = [], [], [], [], []
+        if "malformed_spec" in vin:
+            mal = [vin["malformed_spec"]]
+        elif vin.get("mode") == "real":
+            base = dict(case=vin["case"], mode="real", n_theta=0, seed=0, gen_seed=vin.get("gen_seed", 0))
+            var = vin.get("variant", vin["case"])
+            real_groups = [dict(tasks=[base, dict(base, case=var), dict(base, case=var)])]
+        else:
+            cases = [vin["case"]]
+            pol = vin.get("policy") or gen_policy(rng, cases[0])
+            for p_ in pol:
+                if isinstance(p_["fun"], str) and p_["fun"] != "true":
+                    p_["fun"] = float(p_["fun"])
+            tasks = [dict(case=cases[0], mode="stub", policy=pol, n_theta=2, seed=0, gen_seed=0)]
+            if "variant" in vin:
+                variants = [(0, "perm" if sorted(vin["variant"]["ys"]) == sorted(cases[0]["ys"]) else "cens",
+                             dict(tasks[0], case=vin["variant"]))]
     else:
         n_quad, n_noisy, n_mal, n_real = (900, 150, 500, 16) if tier == "quick" else (8000, 1500, 5000, 80)
         cases = gen_valid_cases(rng, n_quad, n_noisy)
